@@ -193,6 +193,43 @@ theorem step_cFree {n} (h : s.pc a = .cFree n) : step c s a inp = some ((s.free 
 
 end stepeq
 
+
+/-! ### transfer of the list invariants along a step that leaves the pointers alone -/
+
+theorem ListOk.transfer {s s' : State} (hn : s'.node = s.node) (hh : s'.hnext = s.hnext) (hg : s'.glist = s.glist)
+    (hm : ∀ f m, m ∈ s.glist f → MemOk s f m → MemOk s' f m) (h : ListOk s) : ListOk s' := by
+  intro f
+  obtain ⟨h1, h2, h3⟩ := h f
+  rw [hn, hh, hg]
+  exact ⟨h1, h2, fun m hmem => hm f m hmem (h3 m hmem)⟩
+
+theorem ScanOk.transfer {s s' : State} (hn : s'.node = s.node) (hg : s'.glist = s.glist)
+    (hpc : ∀ b f hd tail cur took pend skip l0, s'.pc b = .aScan f hd tail cur took pend skip l0 →
+      s.pc b = .aScan f hd tail cur took pend skip l0)
+    (hm : ∀ b f hd tail cur took pend skip l0 m, s.pc b = .aScan f hd tail cur took pend skip l0 → m ∈ pend →
+      MemOk s f m → MemOk s' f m) (h : ScanOk s) : ScanOk s' := by
+  intro b f hd tail cur took pend skip l0 hb
+  have hb' := hpc _ _ _ _ _ _ _ _ _ hb
+  obtain ⟨h1, h2, h3, h4, h5, h6, h7⟩ := h b f hd tail cur took pend skip l0 hb'
+  rw [hn, hg]
+  exact ⟨h1, h2, h3, h4, h5, fun m hmem => hm _ _ _ _ _ _ _ _ _ m hb' hmem (h6 m hmem), h7⟩
+
+theorem PrevOk.transfer {s s' : State} (hn : s'.node = s.node) (hg : s'.glist = s.glist)
+    (hb : ∀ m, (s'.box m).alloc = true → (s'.box m).pub = true → (s.box m).alloc = true ∧ (s.box m).pub = true)
+    (h2 : ∀ m b, (s'.box m).alloc = true → s.lock (s.node m).fut = some b → m ∈ (s.pc b).pend →
+      ∃ b', s'.lock (s.node m).fut = some b' ∧ m ∈ (s'.pc b').pend)
+    (h3 : ∀ m c, (s'.box m).alloc = true → (s.box m).own = some c → (s.pc c = .cResume m ∨ s.pc c = .cFree m) →
+      ∃ c', (s'.box m).own = some c' ∧ (s'.pc c' = .cResume m ∨ s'.pc c' = .cFree m))
+    (h : PrevOk s) : PrevOk s' := by
+  intro m ha hp hprev
+  rw [hn] at hprev ⊢
+  rw [hg]
+  obtain ⟨ha0, hp0⟩ := hb m ha hp
+  rcases h m ha0 hp0 hprev with h' | ⟨b, hb1, hb2⟩ | ⟨c, hc1, hc2⟩
+  · exact Or.inl h'
+  · exact Or.inr (Or.inl (h2 m b ha hb1 hb2))
+  · exact Or.inr (Or.inr (h3 m c ha hc1 hc2))
+
 /-- rewrite every projection of the new state into updates of the old one, then call `grind` with
 the definitions of the pc attributes -/
 macro "inv_simp" : tactic => `(tactic|
